@@ -2,7 +2,7 @@
 
     The first theorems are about component lists; the text-level rewritings (comments, blank lines, header, BOM,
     white space, CR LF, explicit id 0) are theorems about the reader (Model/Parse.v) further down. *)
-From Cteepbd Require Import Model.Balance Model.Components Proofs.ColFacts Proofs.EpFacts Proofs.DataEquiv Proofs.NormFacts Proofs.WfFacts Proofs.NormPerm Proofs.NormRename.
+From Cteepbd Require Import Model.Balance Model.Components Proofs.ColFacts Proofs.EpFacts Proofs.DataEquiv Proofs.NormFacts Proofs.WfFacts Proofs.NormPerm Proofs.NormRename Proofs.NormSplit.
 From Coq Require Import Permutation.
 Open Scope Qc_scope.
 
@@ -36,6 +36,53 @@ Theorem C10_split : forall n meta nd fs k area lm pre post e v1 v2 i1 i2,
   ep_same (energy_performance (mkComponents meta (pre ++ e :: post) nd) fs k area lm)
           (energy_performance (mkComponents meta (pre ++ e_set_id (e_set_vals e v1) i1 :: e_set_id (e_set_vals e v2) i2 :: post) nd) fs k area lm).
 Proof. intros. apply (equiv_energy_performance n). now apply split_equiv. Qed.
+
+(** from the declared components: one component written as two lines with the same tags, id and comment whose values
+    add up.  Normalisation fails alike or gives component lists with the same tag-selected sums — the completions and the
+    reassigned auxiliary energy only see per-system sums (Proofs/NormSplit.v) — hence the same evaluation *)
+Theorem C10_normalize_split : forall n pre post e v1 v2,
+  wf n (pre ++ e :: post) -> e_vals e = vadd v1 v2 -> length v1 = n -> length v2 = n ->
+  match normalize_data (pre ++ e :: post), normalize_data (pre ++ e_set_vals e v1 :: e_set_vals e v2 :: post) with
+  | Ok a, Ok b => data_equiv n a b
+  | Err x, Err y => x = y
+  | _, _ => False
+  end.
+Proof. exact normalize_data_split. Qed.
+
+Theorem C10_split_declared : forall n meta nd fs k area lm pre post e v1 v2 d,
+  wf n (pre ++ e :: post) -> e_vals e = vadd v1 v2 -> length v1 = n -> length v2 = n ->
+  normalize_data (pre ++ e :: post) = Ok d ->
+  exists d', normalize_data (pre ++ e_set_vals e v1 :: e_set_vals e v2 :: post) = Ok d' /\
+    ep_same (energy_performance (mkComponents meta d nd) fs k area lm) (energy_performance (mkComponents meta d' nd) fs k area lm).
+Proof.
+  intros n meta nd fs k area lm pre post e v1 v2 d W Hv H1 H2 E.
+  pose proof (normalize_data_split n pre post e v1 v2 W Hv H1 H2) as R. unfold res_de in R. rewrite E in R.
+  destruct (normalize_data (pre ++ e_set_vals e v1 :: e_set_vals e v2 :: post)) as [d'|]; [|contradiction].
+  exists d'. split; [reflexivity|]. apply (equiv_energy_performance n). exact R.
+Qed.
+
+(** a two-service system with auxiliary energy whose heating output is written on two lines: both layouts normalise, and
+    the reassigned auxiliary energy is the same (30 of 40 kWh to heating either way) *)
+Example C10_split_example :
+  let pre := [EUsed 1 ELECTRICIDAD ACS [qfrac 100 1] []; EUsed 1 ELECTRICIDAD CAL [qfrac 100 1] []; EOut 1 ACS [qfrac 100 1] []] in
+  let post := [EAux 1 NEPB [qfrac 40 1] []] in
+  let e := EOut 1 CAL [qfrac 300 1] [] in
+  wf 1 (pre ++ e :: post) /\ e_vals e = vadd [qfrac 100 1] [qfrac 200 1] /\
+  match normalize_data (pre ++ e :: post), normalize_data (pre ++ e_set_vals e [qfrac 100 1] :: e_set_vals e [qfrac 200 1] :: post) with
+  | Ok a, Ok b => filter is_aux a = filter is_aux b /\ map (fun x => map this (e_vals x)) (filter is_aux a) = [[10%Q]; [30%Q]]
+  | _, _ => False
+  end.
+Proof. split; [repeat constructor|]. split; vm_compute; [reflexivity|]. split; reflexivity. Qed.
+
+(** more generally: two declared lists with the same per-system tag-selected sums, the same kinds of components per system
+    and the same order of first appearance of the systems normalise alike *)
+Theorem C10_normalize_same_system_sums : forall n d d', seq_equiv n d d' ->
+  match normalize_data d, normalize_data d' with
+  | Ok a, Ok b => data_equiv n a b
+  | Err x, Err y => x = y
+  | _, _ => False
+  end.
+Proof. exact normalize_data_seq_equiv. Qed.
 
 (** renumbering system ids (any function of the id): the balance never looks at ids *)
 Theorem C10_rename_balance : forall n meta nd fs k area lm d f,
@@ -88,6 +135,9 @@ Print Assumptions C10_reorder.
 Print Assumptions C10_normalize_reorder.
 Print Assumptions C10_reorder_declared.
 Print Assumptions C10_split.
+Print Assumptions C10_normalize_split.
+Print Assumptions C10_split_declared.
+Print Assumptions C10_normalize_same_system_sums.
 Print Assumptions C10_rename_balance.
 Print Assumptions C10_normalize_rename.
 Print Assumptions C10_rename_declared.
